@@ -303,6 +303,7 @@ def run(ctx):
     for spec in [x for x in c12.OPS if x[2] in ("__mul__", "__rmul__", "__truediv__", "normalize", "copy") and x[1] != "HistogramCollection"]:
         c12.check_op(ctx, m, "C06.c", "C06.c", *spec)
 
+    c12.check_copy_contents(ctx, "C06.c", m)
     from rules import c13
     c13.check_operator_coercion(ctx, "C06.c", m)
     # ... and the coercion the division relies on converts frequencies, errors2 AND the missed store (in-place `/=` on an
